@@ -220,9 +220,15 @@ int skinny128_ctr_init(Skinny128CTR_t *ctr)
     if (_skinny_has_vec256())
         vtable = &_skinny128_ctr_vec256;
     ctr->vtable = vtable;
+    ctr->ctx = 0;
 
     /* Initialize the CTR mode context */
-    return (*(vtable->init))(ctr);
+    if (!(*(vtable->init))(ctr)) {
+        /* Out of memory: leave the control block in the cleaned up state */
+        ctr->vtable = 0;
+        return 0;
+    }
+    return 1;
 }
 
 void skinny128_ctr_cleanup(Skinny128CTR_t *ctr)
